@@ -229,7 +229,7 @@ def _exec_one(task):
     rec = E.execute(task)
     tr = E.runabs_record(task, rec)
     # keep the payload small
-    slim = {k: rec[k] for k in ("outcome", "dead", "steps", "switches", "preemptions", "threads", "alive_at_return", "events_after_return", "leaked", "interrupts") if k in rec}
+    slim = {k: rec[k] for k in ("outcome", "dead", "steps", "switches", "preemptions", "threads", "engine_release_steps", "alive_at_return", "events_after_return", "leaked", "interrupts") if k in rec}
     for k in ("thread_exc", "exc_type", "exc_repr", "value_ok", "value_repr", "err_call", "err_cause", "_poisoned"):
         if k in rec:
             slim[k] = rec[k]
@@ -256,9 +256,55 @@ def _exec_enum(task):
     return {"multi": res}
 
 
+def _exec_enum2r(task):
+    """Two preemptions, the first right after the release of one of the engine's own locks (the window of a
+    check-then-act moved out of a critical section), the second anywhere later."""
+    base = dict(task)
+    base["strat"] = {"kind": "preempt", "preempts": [], "yic": bool(task.get("yic"))}
+    first = _exec_one(base)
+    res = [(base, first)]
+    if first.get("_poisoned"):
+        return {"multi": res, "_poisoned": True}
+    nth = first["rec"]["threads"]
+    budget = task.get("enum_limit") or 10**9
+    rng = random.Random(task["seed"])
+    for s1 in first["rec"].get("engine_release_steps", []):
+        for t1 in range(nth):
+            t = dict(task)
+            t["strat"] = {"kind": "preempt", "preempts": [[s1, t1]], "yic": bool(task.get("yic"))}
+            o1 = _exec_one(t)
+            if o1["rec"].get("preemptions", 0) == 0:
+                continue
+            res.append((t, o1))
+            if o1.get("_poisoned"):
+                return {"multi": res, "_poisoned": True}
+            steps2 = list(range(s1 + 1, o1["rec"]["steps"] + 1))
+            per = max(1, budget // max(1, len(first["rec"].get("engine_release_steps", [])) * max(1, nth - 1)))
+            if len(steps2) * (nth - 1) > per:
+                steps2 = sorted(rng.sample(steps2, max(1, per // max(1, nth - 1))))
+            for s2 in steps2:
+                for t2 in range(nth):
+                    tt = dict(task)
+                    # the second decision: a forced switch at step s2, or - if a thread blocks there - who runs next
+                    for second in ({"preempts": [[s1, t1], [s2, t2]]}, {"preempts": [[s1, t1]], "blocks": [[s2, t2]]}):
+                        tt = dict(task)
+                        tt["strat"] = dict({"kind": "preempt", "yic": bool(task.get("yic"))}, **second)
+                        o2 = _exec_one(tt)
+                        if "blocks" not in second and o2["rec"].get("preemptions", 0) < 2:
+                            continue
+                        if "blocks" in second and o2["rec"].get("switches") == o1["rec"].get("switches") and o2["rec"]["steps"] == o1["rec"]["steps"]:
+                            continue  # nothing blocked at that step: same execution as with one preemption
+                        res.append((tt, o2))
+                        if o2.get("_poisoned"):
+                            return {"multi": res, "_poisoned": True}
+    return {"multi": res}
+
+
 def _dispatch(task):
     if task.get("mode") == "enum1":
         return _exec_enum(task)
+    if task.get("mode") == "enum2r":
+        return _exec_enum2r(task)
     return _exec_one(task)
 
 
